@@ -45,6 +45,9 @@ func cmdGen(args []string) {
 			cn = names[r.Intn(4)]
 		}
 		cfg := cfgs[cn]
+		if i%sessLen == 0 {
+			gen.Pool = nil
+		}
 		switch *kind {
 		case "codec":
 			o := gen.Opts{Null: cfg.Null, Named: true, Options: true, Proto: cfg.ProtoArrays}
@@ -64,7 +67,7 @@ func cmdGen(args []string) {
 			gt := abs.GoType(t)
 			v := reflect.New(gt)
 			gen.Fill(r, t, v.Elem(), 6)
-			ev := M{"ev": "codec", "id": *idBase + i, "cfg": cfg, "T": t, "v": abs.Project(t, v.Elem())}
+			ev := M{"ev": "codec", "id": *idBase + i, "sess": i / sessLen, "cfg": cfg, "T": t, "v": abs.Project(t, v.Elem())}
 			if err := enc.Encode(ev); err != nil {
 				panic(err)
 			}
